@@ -1,5 +1,6 @@
 (* Props/C08.v — property C08: symmetry under class swap, direction reversal and rescaling. Statements only. *)
-From SA Require Import Model.Symmetry Model.Threshold Proofs.SymmetryFacts Proofs.InvIncrFacts Proofs.EquivarianceFacts Proofs.NegationFacts Proofs.AucInvarianceFacts.
+From SA Require Import Model.Symmetry Model.Threshold Proofs.SymmetryFacts Proofs.InvIncrFacts Proofs.EquivarianceFacts Proofs.NegationFacts Proofs.AucInvarianceFacts Proofs.EerEquivarianceFacts Proofs.EerFacts.
+From SA Require Import Model.Eer.
 From SA Require Import Model.Auc Model.Harness.
 Open Scope Q_scope.
 
@@ -83,7 +84,7 @@ Qed.
 (* the full AUC is unchanged by an increasing affine map of the scores and by reversing the score direction: both
    sides equal their Mann-Whitney statistic (C07), which only compares scores across the classes.  Arbitrary ties,
    easy samples, all four configurations, any carrier whose representable values contain both score sets.
-   (Invariance of the EER value and equivariance of the EER threshold are checked on the implementation only.) *)
+   (For the EER see C08_eer_affine_compatible below.) *)
 Theorem C08_full_auc_affine :
   forall (isD : Q -> Prop) (succ pred : Q -> Q), carrier isD succ pred ->
   forall (a b : Q) (s : scores), 0 < a ->
@@ -101,6 +102,57 @@ Theorem C08_full_auc_negate :
   auc succ pred (neg_scores s) 0 1 AFpr ATpr == auc succ pred s 0 1 AFpr ATpr.
 Proof. exact full_auc_negate. Qed.
 Print Assumptions C08_full_auc_negate.
+
+(* Increasing affine maps that commute with np.nextafter (succ (a*x+b) == a*succ x + b and the same for pred: in
+   binary64 the scalings by a power of two without over/underflow; on the integer carrier every translation): then
+   EVERY threshold returned by the six threshold_at_* functions is mapped by the same map — every target, the
+   one-ulp sentinels included, every method, all four configurations, ties, easy samples, empty classes (both
+   sides raise) — with no interior hypothesis ... *)
+Theorem C08_affine_thresholds_compatible :
+  forall (succ pred : Q -> Q) (a b : Q) (s : scores) (mt : metric6) (u : Q) (m : method), 0 < a -> wf s ->
+  (forall x, succ (a * x + b) == a * succ x + b) -> (forall x, pred (a * x + b) == a * pred x + b) ->
+  match threshold_at succ pred mt (affine_scores a b s) u m, threshold_at succ pred mt s u m with
+  | Ret t', Ret t => t' == a * t + b
+  | Raise, Raise => True
+  | _, _ => False
+  end.
+Proof. exact threshold_at_affine_scores. Qed.
+Print Assumptions C08_affine_thresholds_compatible.
+
+(* ... and eer() returns the same EER (the identical rational: the bisection depends on its function only through
+   its sign and visits the same points) and the mapped threshold; any fuel, ties allowed, every exit of eer().
+   For maps that do not commute with nextafter the sentinels move by the ulp the property grants and the
+   statement is checked on the implementation (harness/props/C08.py, C06.py). *)
+Theorem C08_eer_affine_compatible :
+  forall (succ pred : Q -> Q) (a b : Q) (fuel : nat) (s : scores), 0 < a -> wf s ->
+  (forall x, succ (a * x + b) == a * succ x + b) -> (forall x, pred (a * x + b) == a * pred x + b) ->
+  match eer succ pred fuel (affine_scores a b s), eer succ pred fuel s with
+  | Ret (t', e'), Ret (t, e) => e' = e /\ t' == a * t + b
+  | Raise, Raise => True
+  | _, _ => False
+  end.
+Proof. exact eer_affine_scores. Qed.
+Print Assumptions C08_eer_affine_compatible.
+
+(* the bisection only looks at the sign of its function *)
+Theorem C08_find_root_sign_only : forall fuel f g xa xe ff xtol, same_sign f g ->
+  find_root fuel f xa xe ff xtol = find_root fuel g xa xe ff xtol.
+Proof. exact find_root_sign_ext. Qed.
+Print Assumptions C08_find_root_sign_only.
+
+(* the commutation hypotheses are satisfiable (integer carrier, translation by 7), and on that carrier the
+   conclusion is visible on a concrete overlapping object; in binary64 a scaling by 4 of an object with a
+   non-trivial EER gives the same EER and 4 times the threshold *)
+Example C08_eer_affine_example :
+  let s := mk_scores [1#1; 3#1; 5#1; 7#1] [0#1; 2#1; 4#1; 6#1] 0 1 Pos Pos false in
+  ((forall x, (x + 7) + 1 == (x + 1) + 7) /\ (forall x, (x + 7) - 1 == (x - 1) + 7)) /\
+  match eer (fun x => x + 1) (fun x => x - 1) 64 (affine_scores 1 7 s), eer (fun x => x + 1) (fun x => x - 1) 64 s with
+  | Ret (t', e'), Ret (t, e) => Qeqb e' e && Qeqb t' (t + 7) && Qltb 0 e
+  | _, _ => false end = true /\
+  match eer succ64 pred64 64 (affine_scores 4 0 s), eer succ64 pred64 64 s with
+  | Ret (t', e'), Ret (t, e) => Qeqb e' e && Qeqb t' (4 * t) && Qltb 0 e
+  | _, _ => false end = true.
+Proof. split; [split; intro x; ring|]. split; vm_compute; reflexivity. Qed.
 
 (* binary64 instance with a cross-class tie and easy samples *)
 Example C08_auc_example :
